@@ -70,6 +70,23 @@ def check_value(ctx, t: int, bt):
                               required="identical tick count after pickling")
         if hash(x) != hash(cls.from_ticks(t)):
             ctx.violation(path=f"{cls.__name__}.hash", ticks=t, observed="hash differs", required="equal hashes")
+        # the tick count may arrive as a NumPy integer scalar (SupportsIndex): the value is the same 128-bit integer
+        import numpy as np
+        for T in (np.int64, np.uint64, np.int32, np.uint8):
+            info = np.iinfo(T)
+            if not (info.min <= t <= info.max):
+                continue
+            o3 = outcome(cls.from_ticks, T(t))
+            ok3 = o3[0] == "ok" and type(o3[1].ticks) is int and o3[1].ticks == t
+            if ok3:
+                y = o3[1]
+                r3 = outcome(lambda: (tuple(y.to_tuple()), (y + TimeDelta.from_ticks(1)).ticks if cls is TimeDelta else (y + TimeDelta.from_ticks(1)).ticks,
+                                      pickle.loads(pickle.dumps(y)).ticks))
+                ok3 = r3 == ("ok", ((w, f), t + 1, t)) or (t + 1 > I128_MAX and r3[0] == "err")
+            if not ok3:
+                ctx.violation(path=f"{cls.__name__}.from_ticks({T.__name__})", ticks=t, observed=show(o3) if o3[0] != "ok" else f"ticks {o3[1].ticks!r} ({type(o3[1].ticks).__name__})",
+                              required="the same value as from_ticks(int)")
+                break
     if inr:
         d = DateTime.from_offset(TimeDelta.from_ticks(t))
         if d.ticks != t:
